@@ -392,6 +392,299 @@ theorem arun_eq_xrun (cfg : Config) (ops : List AOp) : ∀ x : XState,
 
 end MemX
 
+
+/-! ### time stamps are pairwise distinct, so Lru / Fifo victims are determined -/
+section Stamps
+open Cascette.Model.CacheExt Cascette.Model.CacheExt.Mem
+
+
+/-- every stamp is at most `c`, and two stored entries with the same `last` (or the same
+`created`) stamp are the same entry -/
+def StampedBy (st : Store) (P : Nat → Prop) : Prop :=
+  ∀ a ∈ st, (P a.2.last ∧ P a.2.created) ∧
+    ∀ b ∈ st, (a.2.last = b.2.last → a.1 = b.1) ∧ (a.2.created = b.2.created → a.1 = b.1)
+
+def Stamped (s : State) : Prop := StampedBy s.store (· ≤ s.clock)
+def StampedLt (s : State) : Prop := StampedBy s.store (· < s.clock)
+
+theorem stamped_init : Stamped init := fun a ha => by cases ha
+
+theorem stamped_tick {s : State} (h : Stamped s) : StampedLt (tick s) := by
+  intro a ha
+  obtain ⟨⟨h1, h2⟩, h3⟩ := h a ha
+  refine ⟨⟨?_, ?_⟩, h3⟩
+  · show a.2.last < s.clock + 1; omega
+  · show a.2.created < s.clock + 1; omega
+
+theorem stampedBy_sub {st st' : Store} {P : Nat → Prop} (hsub : ∀ p ∈ st', p ∈ st) (h : StampedBy st P) :
+    StampedBy st' P :=
+  fun a ha => ⟨(h a (hsub a ha)).1, fun b hb => (h a (hsub a ha)).2 b (hsub b hb)⟩
+
+theorem stampedBy_weaken {st : Store} {P Q : Nat → Prop} (hpq : ∀ n, P n → Q n) (h : StampedBy st P) :
+    StampedBy st Q :=
+  fun a ha => ⟨⟨hpq _ (h a ha).1.1, hpq _ (h a ha).1.2⟩, (h a ha).2⟩
+
+theorem removeCounted_sub (s : State) (k : Key) : (∀ p ∈ (removeCounted s k).store, p ∈ s.store) ∧
+    (removeCounted s k).clock = s.clock := by
+  unfold removeCounted
+  split
+  · exact ⟨fun p hp => mem_erase hp, rfl⟩
+  · exact ⟨fun p hp => hp, rfl⟩
+
+theorem evictKeys_sub (vs : List Key) : ∀ s : State, (∀ p ∈ (evictKeys s vs).store, p ∈ s.store) ∧
+    (evictKeys s vs).clock = s.clock := by
+  induction vs with
+  | nil => intro s; exact ⟨fun p hp => hp, rfl⟩
+  | cons v t ih =>
+    intro s
+    have h1 := ih (removeCounted s v)
+    have h2 := removeCounted_sub s v
+    exact ⟨fun p hp => h2.1 p (h1.1 p hp), by show (evictKeys (removeCounted s v) t).clock = _; rw [h1.2, h2.2]⟩
+
+theorem preEvict_sub (cfg : Config) (s : State) (vs : List Key) :
+    (∀ p ∈ (preEvict cfg s vs).store, p ∈ s.store) ∧ (preEvict cfg s vs).clock = s.clock := by
+  unfold preEvict performEviction
+  split
+  · split
+    · exact ⟨fun p hp => hp, rfl⟩
+    · split
+      · exact ⟨fun p hp => hp, rfl⟩
+      · split <;> exact evictKeys_sub _ _
+  · exact ⟨fun p hp => hp, rfl⟩
+
+theorem mem_erase_ne {α : Type} {k : Key} {l : List (Key × α)} {p : Key × α} (h : p ∈ erase k l) : p.1 ≠ k := by
+  rw [erase_eq_filter, List.mem_filter] at h
+  simpa using h.2
+
+/-- inserting an entry stamped with the current clock over a store stamped strictly earlier -/
+theorem stampedBy_insert {st : Store} {c : Nat} (k : Key) (e : Entry) (h : StampedBy st (· < c))
+    (hl : e.last = c) (hc : e.created = c) : StampedBy ((k, e) :: erase k st) (· ≤ c) := by
+  intro a ha
+  rcases List.mem_cons.mp ha with rfl | ha'
+  · refine ⟨⟨by show e.last ≤ c; omega, by show e.created ≤ c; omega⟩, ?_⟩
+    intro b hb
+    rcases List.mem_cons.mp hb with rfl | hb'
+    · exact ⟨fun _ => rfl, fun _ => rfl⟩
+    · have hb1 := (h b (mem_erase hb')).1
+      refine ⟨fun heq => ?_, fun heq => ?_⟩
+      · have : e.last = b.2.last := heq
+        omega
+      · have : e.created = b.2.created := heq
+        omega
+  · have ha1 := h a (mem_erase ha')
+    refine ⟨⟨by have := ha1.1.1; omega, by have := ha1.1.2; omega⟩, ?_⟩
+    intro b hb
+    rcases List.mem_cons.mp hb with rfl | hb'
+    · refine ⟨fun heq => ?_, fun heq => ?_⟩
+      · have : a.2.last = e.last := heq
+        have := ha1.1.1; omega
+      · have : a.2.created = e.created := heq
+        have := ha1.1.2; omega
+    · exact ha1.2 b (mem_erase hb')
+
+theorem stamped_putCore (cfg : Config) {s : State} (k : Key) (v : Val) (short : Bool) (vs : List Key)
+    (h : StampedLt s) : Stamped (putCore cfg s k v short vs) := by
+  have hsub := preEvict_sub cfg s vs
+  have h1 : StampedBy (preEvict cfg s vs).store (· < s.clock) := stampedBy_sub hsub.1 h
+  have hst : (putCore cfg s k v short vs).store = (k, newEntry (preEvict cfg s vs) v short) :: erase k (preEvict cfg s vs).store :=
+    insertCounted_store _ _ _
+  have hclk : (putCore cfg s k v short vs).clock = s.clock := by
+    show (insertCounted (preEvict cfg s vs) k _).clock = _
+    unfold insertCounted
+    split <;> exact hsub.2
+  unfold Stamped
+  rw [hst, hclk]
+  exact stampedBy_insert k _ h1 hsub.2 hsub.2
+
+theorem stamped_sweep {s : State} (k : Key) (e : Entry) (h : StampedLt s) : Stamped (sweep s k e) := by
+  unfold sweep
+  split
+  · exact stampedBy_weaken (fun n hn => Nat.le_of_lt hn) (stampedBy_sub (fun p hp => mem_erase hp) h)
+  · exact stampedBy_weaken (fun n hn => Nat.le_of_lt hn) h
+
+theorem stamped_get {s : State} (k : Key) (h : StampedLt s) : Stamped (Model.MemCache.get s k).1 := by
+  unfold Model.MemCache.get
+  cases hl : lookup k s.store with
+  | none => exact stampedBy_weaken (fun n hn => Nat.le_of_lt hn) h
+  | some e =>
+    dsimp only
+    by_cases hs : e.short = true
+    · rw [if_pos hs]; exact stamped_sweep k e h
+    · rw [if_neg hs]
+      have he := mem_of_lookup hl
+      have hek := h (k, e) he
+      -- the refreshed entry: `last` = clock, `created` as before
+      intro a ha
+      rcases List.mem_cons.mp ha with rfl | ha'
+      · refine ⟨⟨Nat.le_refl _, Nat.le_of_lt hek.1.2⟩, ?_⟩
+        intro b hb
+        rcases List.mem_cons.mp hb with rfl | hb'
+        · exact ⟨fun _ => rfl, fun _ => rfl⟩
+        · have hb1 := (h b (mem_erase hb')).1
+          refine ⟨fun heq => ?_, fun heq => ?_⟩
+          · have : s.clock = b.2.last := heq
+            omega
+          · exact (hek.2 b (mem_erase hb')).2 heq
+      · have ha1 := h a (mem_erase ha')
+        refine ⟨⟨Nat.le_of_lt ha1.1.1, Nat.le_of_lt ha1.1.2⟩, ?_⟩
+        intro b hb
+        rcases List.mem_cons.mp hb with rfl | hb'
+        · refine ⟨fun heq => ?_, fun heq => ?_⟩
+          · have : a.2.last = s.clock := heq
+            have := ha1.1.1; omega
+          · exact (ha1.2 (k, e) he).2 heq
+        · exact ha1.2 b (mem_erase hb')
+
+theorem stamped_step (cfg : Config) {s : State} (op : Op) (h : Stamped s) : Stamped (step cfg s op).1 := by
+  have ht := stamped_tick h
+  have hw : Stamped (tick s) := stampedBy_weaken (fun n hn => Nat.le_of_lt hn) ht
+  cases op with
+  | put k v vs => exact stamped_putCore cfg k v _ vs ht
+  | putTtl k v short vs => exact stamped_putCore cfg k v short vs ht
+  | get k => exact stamped_get k ht
+  | contains k =>
+    show Stamped (contains (tick s) k).1
+    unfold contains
+    split
+    · exact hw
+    · split
+      · exact stamped_sweep k _ ht
+      · exact hw
+  | remove k =>
+    show Stamped (remove (tick s) k).1
+    unfold remove
+    split
+    · have := removeCounted_sub (tick s) k
+      unfold Stamped; rw [this.2]
+      exact stampedBy_sub this.1 hw
+    · exact hw
+  | clear => exact fun a ha => by cases ha
+  | size => exact hw
+  | stats => exact hw
+
+theorem stamped_cleanupTick {s : State} (h : Stamped s) : Stamped (cleanupTick s) := by
+  have := evictKeys_sub (expiredKeys s.store) s
+  unfold Stamped cleanupTick; rw [this.2]
+  exact stampedBy_sub this.1 h
+
+theorem stamped_xstep (cfg : Config) {x : XState} (op : XOp) (h : Stamped x.s) : Stamped (xstep cfg x op).1.s := by
+  cases op with
+  | base op => rw [xstep_base_s]; exact stamped_step cfg op h
+  | cleanup => exact stamped_cleanupTick h
+
+theorem stamped_xrun (cfg : Config) (ops : List XOp) : ∀ x : XState, Stamped x.s → Stamped (xrun cfg x ops).s := by
+  induction ops with
+  | nil => intro x h; exact h
+  | cons op t ih => intro x h; exact ih _ (stamped_xstep cfg op h)
+
+/-! pigeonhole on duplicate-free key lists -/
+
+theorem length_le_of_subset : ∀ (l1 l2 : List Key), l1.Pairwise (· ≠ ·) → (∀ x ∈ l1, x ∈ l2) → l1.length ≤ l2.length := by
+  intro l1
+  induction l1 with
+  | nil => intro l2 _ _; exact Nat.zero_le _
+  | cons a t ih =>
+    intro l2 hnd hsub
+    obtain ⟨ha, ht⟩ := List.pairwise_cons.mp hnd
+    have hal : a ∈ l2 := hsub a List.mem_cons_self
+    have hsub' : ∀ x ∈ t, x ∈ l2.erase a := by
+      intro x hx
+      have hne : x ≠ a := fun h => ha x hx h.symm
+      exact (List.mem_erase_of_ne hne).mpr (hsub x (List.mem_cons_of_mem _ hx))
+    have := ih (l2.erase a) ht hsub'
+    rw [List.length_erase_of_mem hal] at this
+    have hpos : 0 < l2.length := List.length_pos_of_mem hal
+    show t.length + 1 ≤ l2.length
+    omega
+
+theorem exists_other {l1 l2 : List Key} (_h1 : l1.Pairwise (· ≠ ·)) (h2 : l2.Pairwise (· ≠ ·))
+    (hlen : l1.length = l2.length) {k : Key} (hk : k ∈ l1) (hk2 : k ∉ l2) : ∃ k', k' ∈ l2 ∧ k' ∉ l1 := by
+  apply Classical.byContradiction
+  intro hno
+  have hsub : ∀ x ∈ l2, x ∈ l1.erase k := by
+    intro x hx
+    have hx1 : x ∈ l1 := Classical.byContradiction (fun hn => hno ⟨x, hx, hn⟩)
+    have hne : x ≠ k := fun h => hk2 (h ▸ hx)
+    exact (List.mem_erase_of_ne hne).mpr hx1
+  have := length_le_of_subset l2 (l1.erase k) h2 hsub
+  rw [List.length_erase_of_mem hk] at this
+  have hpos : 0 < l1.length := List.length_pos_of_mem hk
+  omega
+
+theorem victimsOk_rank {p : Policy} {st : Store} {n : Nat} {vs : List Key} (h : victimsOk p st n vs = true) :
+    ∀ q ∈ st, q.1 ∈ vs ∨ ∀ k ∈ vs, ∃ e, lookup k st = some e ∧ metric p e ≤ metric p q.2 := by
+  unfold victimsOk at h
+  simp only [Bool.and_eq_true, List.all_eq_true, beq_iff_eq, Bool.or_eq_true, List.contains_eq_mem,
+    decide_eq_true_eq] at h
+  intro q hq
+  rcases h.2 q hq with h1 | h2
+  · left; exact h1
+  · right
+    intro k hk
+    have := h2 k hk
+    cases hl : lookup k st with
+    | none => rw [hl] at this; simp at this
+    | some e => rw [hl] at this; exact ⟨e, rfl, by simpa using this⟩
+
+/-- **with pairwise distinct metrics the policy leaves no choice**: two victim lists the policy
+allows name the same keys -/
+theorem victims_determined {p : Policy} {st : Store} {n : Nat} {vs vs' : List Key}
+    (hinj : ∀ a ∈ st, ∀ b ∈ st, metric p a.2 = metric p b.2 → a.1 = b.1)
+    (h : victimsOk p st n vs = true) (h' : victimsOk p st n vs' = true) : ∀ k, k ∈ vs → k ∈ vs' := by
+  intro k hk
+  apply Classical.byContradiction
+  intro hk'
+  obtain ⟨hd, hp, hl⟩ := victimsOk_facts h
+  obtain ⟨hd', hp', hl'⟩ := victimsOk_facts h'
+  obtain ⟨k2, hk2, hk2n⟩ := exists_other ((distinct_iff _).mp hd) ((distinct_iff _).mp hd') (by omega) hk hk'
+  obtain ⟨e, he⟩ := Option.isSome_iff_exists.mp (hp k hk)
+  obtain ⟨e2, he2⟩ := Option.isSome_iff_exists.mp (hp' k2 hk2)
+  have hm := mem_of_lookup he
+  have hm2 := mem_of_lookup he2
+  -- k2 survives under vs, so every victim of vs (k among them) ranks no later than k2
+  have r1 : metric p e ≤ metric p e2 := by
+    rcases victimsOk_rank h (k2, e2) hm2 with hin | hall
+    · exact absurd hin hk2n
+    · obtain ⟨e', he', hle⟩ := hall k hk
+      rw [he] at he'; cases he'; exact hle
+  -- k survives under vs', so every victim of vs' (k2 among them) ranks no later than k
+  have r2 : metric p e2 ≤ metric p e := by
+    rcases victimsOk_rank h' (k, e) hm with hin | hall
+    · exact absurd hin hk'
+    · obtain ⟨e', he', hle⟩ := hall k2 hk2
+      rw [he2] at he'; cases he'; exact hle
+  have : k = k2 := hinj (k, e) hm (k2, e2) hm2 (by show metric p e = metric p e2; omega)
+  exact hk2n (this ▸ hk)
+
+/-- evicting two lists with the same members gives the same state -/
+theorem evictKeys_congr {s : State} (hi : Inv s) {vs vs' : List Key} (h : ∀ k, k ∈ vs ↔ k ∈ vs') :
+    evictKeys s vs = evictKeys s vs' := by
+  have h1 := inv_evictKeys vs s hi
+  have h2 := inv_evictKeys vs' s hi
+  have hst : (evictKeys s vs).store = (evictKeys s vs').store := by
+    rw [evictKeys_store, evictKeys_store]
+    apply List.filter_congr
+    intro p _
+    have := h p.1
+    by_cases hc : p.1 ∈ vs
+    · simp [hc, this.mp hc]
+    · have hc' : p.1 ∉ vs' := fun h' => hc (this.mpr h')
+      simp [hc, hc']
+  have hc : (evictKeys s vs).count = (evictKeys s vs').count := by rw [h1.count, h2.count, hst]
+  have hb : (evictKeys s vs).bytes = (evictKeys s vs').bytes := by rw [h1.bytes, h2.bytes, hst]
+  have hk : (evictKeys s vs).clock = (evictKeys s vs').clock := by
+    rw [(evictKeys_sub vs s).2, (evictKeys_sub vs' s).2]
+  cases hA : evictKeys s vs
+  cases hB : evictKeys s vs'
+  rw [hA] at hst hc hb hk
+  rw [hB] at hst hc hb hk
+  simp only at hst hc hb hk
+  subst hst hc hb hk
+  rfl
+
+
+end Stamps
+
 end Cascette.Proofs.CacheExt
 
 namespace Cascette.Proofs.CacheExtDisk
@@ -520,39 +813,196 @@ theorem dead_run (cfg : Config) {k : Key} (ops : List Op) : ∀ s, Dead k s →
     intro s h hr
     exact ih _ (dead_step cfg op h (hr op List.mem_cons_self)) (fun o ho => hr o (List.mem_cons_of_mem _ ho))
 
-/-! disk metrics -/
+/-! the cleanup task of the disk cache, disk metrics -/
 section DX
 open Cascette.Model.CacheExt Cascette.Model.CacheExt.Disk
 
-theorem dxstep_s (cfg : Config) (x : XState) (op : Op) : (xstep cfg x op).1.s = (step cfg x.s op).1 := by
+theorem dinv_dropIfExpired {s : State} (k : Key) (h : DInv s) : DInv (dropIfExpired s k) := by
+  unfold dropIfExpired
+  cases hl : lookup k s.index with
+  | none => exact h
+  | some e =>
+    dsimp only
+    split
+    · exact dinv_drop hl h
+    · exact h
+
+theorem dinv_foldDrop (ks : List Key) : ∀ s, DInv s → DInv (ks.foldl dropIfExpired s) := by
+  induction ks with
+  | nil => intro s h; exact h
+  | cons k t ih => intro s h; exact ih _ (dinv_dropIfExpired k h)
+
+theorem dinv_cleanupTick {s : State} (h : DInv s) : DInv (cleanupTick s) := dinv_foldDrop _ _ h
+
+/-- what the treatment of key `k'` does to the index entry and file of `k` -/
+theorem dropIfExpired_lookup (s : State) (k k' : Key) :
+    (lookup k (dropIfExpired s k').index = lookup k s.index ∧ lookup k (dropIfExpired s k').files = lookup k s.files) ∨
+    (k = k' ∧ (∃ e, lookup k s.index = some e ∧ e.short = true) ∧
+      lookup k (dropIfExpired s k').index = none ∧ lookup k (dropIfExpired s k').files = none) := by
+  unfold dropIfExpired
+  cases hl : lookup k' s.index with
+  | none => left; exact ⟨rfl, rfl⟩
+  | some e =>
+    dsimp only
+    by_cases hs : e.short = true
+    · rw [if_pos hs]
+      by_cases hk : k = k'
+      · right
+        subst hk
+        exact ⟨rfl, ⟨e, hl, hs⟩, lookup_erase_self _ _, lookup_erase_self _ _⟩
+      · left
+        exact ⟨lookup_erase_ne hk _, lookup_erase_ne hk _⟩
+    · rw [if_neg hs]; left; exact ⟨rfl, rfl⟩
+
+theorem dead_dropIfExpired {k : Key} {s : State} (k' : Key) (h : Dead k s) : Dead k (dropIfExpired s k') := by
+  rcases dropIfExpired_lookup s k k' with hf | ⟨_, _, h1, h2⟩
+  · exact dead_of_frame h hf
+  · right; exact ⟨h1, h2⟩
+
+theorem dead_cleanupTick {k : Key} {s : State} (h : Dead k s) : Dead k (cleanupTick s) := by
+  unfold cleanupTick
+  generalize (s.index.filter (fun p => p.2.short)).map (·.1) = ks
+  induction ks generalizing s with
+  | nil => exact h
+  | cons k' t ih => exact ih (dead_dropIfExpired k' h)
+
+theorem kept_dropIfExpired {k : Key} {v : Val} {s : State} (k' : Key) (h : Kept k v s) : Kept k v (dropIfExpired s k') := by
+  obtain ⟨hf, hi⟩ := h
+  rcases dropIfExpired_lookup s k k' with ⟨h1, h2⟩ | ⟨_, ⟨e, he, hs⟩, _, _⟩
+  · exact ⟨by rw [h2]; exact hf, fun e he => hi e (by rw [← h1]; exact he)⟩
+  · have := hi e he; rw [hs] at this; cases this
+
+theorem kept_cleanupTick {k : Key} {v : Val} {s : State} (h : Kept k v s) : Kept k v (cleanupTick s) := by
+  unfold cleanupTick
+  generalize (s.index.filter (fun p => p.2.short)).map (·.1) = ks
+  induction ks generalizing s with
+  | nil => exact h
+  | cons k' t ih => exact ih (kept_dropIfExpired k' h)
+
+/-- files only disappear in a cleanup tick -/
+theorem last_cleanupTick {s : State} {r : Ref} (h : LastD s r) : LastD (cleanupTick s) r := by
+  unfold cleanupTick
+  generalize (s.index.filter (fun p => p.2.short)).map (·.1) = ks
+  induction ks generalizing s with
+  | nil => exact h
+  | cons k' t ih =>
+    apply ih
+    intro k v hl
+    rcases dropIfExpired_lookup s k k' with ⟨_, h2⟩ | ⟨_, _, _, h2⟩
+    · exact h k v (by rw [← h2]; exact hl)
+    · rw [h2] at hl; cases hl
+
+/-- after a tick no indexed entry has an ended TTL -/
+theorem cleanupTick_noShort {s : State} (h : DInv s) : noShort (cleanupTick s) = true := by
+  have key : ∀ (ks : List Key) (s : State), DInv s →
+      (∀ k e, lookup k s.index = some e → e.short = true → k ∈ ks) →
+      ∀ k e, lookup k (ks.foldl dropIfExpired s).index = some e → e.short = false := by
+    intro ks
+    induction ks with
+    | nil =>
+      intro s _ hall k e hl
+      cases hs : e.short with
+      | false => rfl
+      | true => exact absurd (hall k e hl hs) (by simp)
+    | cons k' t ih =>
+      intro s hd hall
+      apply ih (dropIfExpired s k') (dinv_dropIfExpired k' hd)
+      intro k e hl hs
+      rcases dropIfExpired_lookup s k k' with ⟨h1, _⟩ | ⟨_, _, h1, _⟩
+      · rw [h1] at hl
+        rcases List.mem_cons.mp (hall k e hl hs) with rfl | ht
+        · -- k = k': it was dropped, so it cannot still be indexed
+          exfalso
+          have : lookup k (dropIfExpired s k).index = none := by
+            unfold dropIfExpired; rw [hl]; dsimp only; rw [if_pos hs]; exact lookup_erase_self _ _
+          rw [h1] at this; rw [hl] at this; cases this
+        · exact ht
+      · rw [h1] at hl; cases hl
+  unfold noShort
+  rw [List.all_eq_true]
+  intro p hp
+  have hd' := dinv_cleanupTick h
+  have hl := lookup_of_mem hd'.nodupI (show (p.1, p.2) ∈ _ from hp)
+  have := key _ s h (fun k e hl hs => List.mem_map.mpr ⟨(k, e), List.mem_filter.mpr ⟨mem_of_lookup hl, hs⟩, rfl⟩) p.1 p.2 hl
+  simp [this]
+
+theorem dxstep_s (cfg : Config) (x : XState) (op : Op) : (xstep cfg x (.base op)).1.s = (step cfg x.s op).1 := by
   cases op <;> rfl
 
-theorem dxrun_s (cfg : Config) (ops : List Op) : ∀ x : XState, (xrun cfg x ops).s = run cfg x.s ops := by
+theorem dinv_xstep (cfg : Config) {x : XState} (op : XOp) (h : DInv x.s) : DInv (xstep cfg x op).1.s := by
+  cases op with
+  | base op => rw [dxstep_s]; exact dinv_step cfg op h
+  | cleanup => exact dinv_cleanupTick h
+
+theorem dinv_xrun (cfg : Config) (ops : List XOp) : ∀ x : XState, DInv x.s → DInv (xrun cfg x ops).s := by
   induction ops with
-  | nil => intro x; rfl
+  | nil => intro x h; exact h
+  | cons op t ih => intro x h; exact ih _ (dinv_xstep cfg op h)
+
+/-- does the extended operation store key `k` again, or replace the instance? -/
+def xrevives (k : Key) : XOp → Bool
+  | .base op => revives k op
+  | .cleanup => false
+
+def xtouches (k : Key) : XOp → Bool
+  | .base op => touches k op
+  | .cleanup => false
+
+theorem dead_xrun (cfg : Config) {k : Key} (ops : List XOp) : ∀ x : XState, Dead k x.s →
+    (∀ op ∈ ops, xrevives k op = false) → Dead k (xrun cfg x ops).s := by
+  induction ops with
+  | nil => intro x h _; exact h
   | cons op t ih =>
-    intro x
-    show (xrun cfg (xstep cfg x op).1 t).s = run cfg (step cfg x.s op).1 t
-    rw [ih, dxstep_s]
+    intro x h hr
+    apply ih _ _ (fun o ho => hr o (List.mem_cons_of_mem _ ho))
+    have h0 := hr op List.mem_cons_self
+    cases op with
+    | base op => rw [dxstep_s]; exact dead_step cfg op h h0
+    | cleanup => exact dead_cleanupTick h
+
+theorem kept_xrun (cfg : Config) {k : Key} {v : Val} (ops : List XOp) : ∀ x : XState, Kept k v x.s →
+    (∀ op ∈ ops, xtouches k op = false) → Kept k v (xrun cfg x ops).s := by
+  induction ops with
+  | nil => intro x h _; exact h
+  | cons op t ih =>
+    intro x h hr
+    apply ih _ _ (fun o ho => hr o (List.mem_cons_of_mem _ ho))
+    have h0 := hr op List.mem_cons_self
+    cases op with
+    | base op => rw [dxstep_s]; exact kept_step cfg op h h0
+    | cleanup => exact kept_cleanupTick h
+
+theorem last_xrun (cfg : Config) (ops : List XOp) : ∀ (x : XState) (r : Ref), LastD x.s r →
+    LastD (xrun cfg x ops).s (CacheMap.runLastPut r (ops.map (absXOp cfg))) := by
+  induction ops with
+  | nil => intro x r h; exact h
+  | cons op t ih =>
+    intro x r h
+    apply ih
+    cases op with
+    | base op => rw [dxstep_s]; exact last_step cfg op h
+    | cleanup => exact last_cleanupTick h
 
 theorem record_le (m : Metrics) (b : Bool) (h : m.hits ≤ m.gets) : (m.record b).hits ≤ (m.record b).gets := by
   cases b <;> simp [Metrics.record] <;> omega
 
-theorem dmetrics_xstep (cfg : Config) {x : XState} (op : Op) (h : x.m.hits ≤ x.m.gets) :
+theorem dmetrics_xstep (cfg : Config) {x : XState} (op : XOp) (h : x.m.hits ≤ x.m.gets) :
     (xstep cfg x op).1.m.hits ≤ (xstep cfg x op).1.m.gets := by
   cases op with
-  | get k =>
-    exact record_le _ _ h
-  | clear => exact Nat.le_refl 0
-  | reopen => exact Nat.le_refl 0
-  | put k v => exact h
-  | putTtl k v short => exact h
-  | contains k => exact h
-  | remove k => exact h
-  | size => exact h
-  | stats => exact h
+  | cleanup => exact h
+  | base op =>
+    cases op with
+    | get k => exact record_le _ _ h
+    | clear => exact Nat.le_refl 0
+    | reopen => exact Nat.le_refl 0
+    | put k v => exact h
+    | putTtl k v short => exact h
+    | contains k => exact h
+    | remove k => exact h
+    | size => exact h
+    | stats => exact h
 
-theorem dmetrics_xrun (cfg : Config) (ops : List Op) : ∀ x : XState, x.m.hits ≤ x.m.gets →
+theorem dmetrics_xrun (cfg : Config) (ops : List XOp) : ∀ x : XState, x.m.hits ≤ x.m.gets →
     (xrun cfg x ops).m.hits ≤ (xrun cfg x ops).m.gets := by
   induction ops with
   | nil => intro x h; exact h
